@@ -309,7 +309,15 @@ Definition get_provider_ids_matching (d : db) (ctx : rg_ctx) : list (Z * Z) :=
   | (None, _) => []
   | (Some filtered, forbidden) =>
       match rg_with_resource ctx with
-      | [] => filter (fun p => memZ (fst p) filtered) (get_providers_with_root d filtered forbidden)
+      | [] =>
+          (* resourceless group: in_tree is applied here, and an empty `filtered` (no positive trait or
+             aggregate filter) keeps every provider that is not forbidden *)
+          let provs := get_providers_with_root d filtered forbidden in
+          let in_tree := match rg_tree_root ctx with
+                         | Some t => filter (fun p => snd p =? t) provs
+                         | None => provs
+                         end in
+          if is_nil filtered then in_tree else filter (fun p => memZ (fst p) filtered) in_tree
       | (_, first) :: rest =>
           let f1 := if is_nil filtered then diffZ (map fst first) forbidden else interZ filtered (map fst first) in
           let f := fold_left (fun acc x => interZ acc (map fst (snd x))) rest f1 in
